@@ -324,3 +324,43 @@ fn c06_packed_slots_at_every_key_and_in_shared_sets_are_reported() {
     }
     run_cases("c06_packed_slots", cases);
 }
+
+/// a type-checker configuration whose lifting passes were put together through the public `LiftingPasses::add` (the nine
+/// default passes, in the default order) reports the same slots as the default configuration
+#[test]
+fn c06_passes_assembled_through_add_report_the_same_slots() {
+    use storage_layout_extractor::{self as sle, extractor::{chain::{version::EthereumVersion, Chain}, contract::Contract}, tc, vm, watchdog::LazyWatchdog,
+        tc::lift::{Lift, LiftingPasses, dynamic_array_access::DynamicArrayIndex, mapping_index::MappingIndex, mapping_offset::MappingOffset, mul_shifted::MulShiftedValue, packed_encoding::PackedEncoding,
+                   proxy_slots::ProxySlots, recognise_hashed_slots::StorageSlotHashes, storage_slots::StorageSlots, sub_word::SubWordValue}};
+    std::panic::set_hook(Box::new(|_| {}));
+    let mut cases = 0;
+    let keys = literal_keys(0);
+    for (i, &k) in keys.iter().enumerate().step_by(3) {
+        let k2 = keys[(i + 4) % keys.len()];
+        let mut code = write_only(k, 1, false); code.pop();
+        code.extend(read_only(k2, false));
+        let run = |cfg: tc::Config, code: &[u8]| -> Option<Vec<U256>> {
+            let c = code.to_vec();
+            std::panic::catch_unwind(std::panic::AssertUnwindSafe(move || {
+                let contract = Contract::new(c, Chain::Ethereum { version: EthereumVersion::Shanghai });
+                sle::new(contract, vm::Config::default(), cfg, LazyWatchdog.in_rc()).analyze().ok().map(|l| l.slots().iter().map(|s| s.index.0).collect())
+            })).ok().flatten()
+        };
+        let mut lp = LiftingPasses::new(Vec::<Box<dyn Lift>>::new());
+        // `new()` of each pass hands out a boxed pass; `add` takes the pass itself
+        lp.add(*StorageSlotHashes::new()); lp.add(*ProxySlots::new()); lp.add(*MappingIndex::new()); lp.add(*SubWordValue::new()); lp.add(*MulShiftedValue::new());
+        lp.add(*PackedEncoding::new()); lp.add(*DynamicArrayIndex::new()); lp.add(*StorageSlots::new()); lp.add(*MappingOffset::new());
+        let with_add = run(tc::Config::default().with_lifting_passes(lp), &code);
+        let default = run(tc::Config::default(), &code);
+        cases += 1;
+        let hexcode: String = code.iter().map(|b| format!("{b:02x}")).collect();
+        for key in [k, k2] {
+            if let Some(slots) = &with_add {
+                if !slots.contains(&key) {
+                    witness("C06", "slots.custom_pass_list", format!("the nine default passes assembled with LiftingPasses::add: sstore({k:#x}, 1); sload({k2:#x}): {hexcode}"), format!("entries {slots:x?} (default configuration: {default:x?})"), format!("an entry at index {key:#x}"));
+                }
+            }
+        }
+    }
+    println!("CASES c06_add_built_passes {cases}");
+}
